@@ -196,12 +196,45 @@ class SInt(_Num):
         return SInt(pymod(c[0], c[1]))
 
 
+CURRENT_CTX = [None]     # the Path of the running obligation (set by Interp); lets div/mod introduce definitions
+
+
+def _divmod_const(a, k):
+    """Floor quotient and remainder of term a by the positive constant k as fresh variables with the linear
+    definition a == k*q + r, 0 <= r < k (far more stable for the solver than div/mod terms)."""
+    ctx = CURRENT_CTX[0]
+    cache = ctx.__dict__.setdefault('_divmod_cache', {})
+    key = (a.get_id(), k)
+    hit = cache.get(key)
+    if hit is None:
+        q = z3.Int(ctx._fresh_name('q'))
+        r = z3.Int(ctx._fresh_name('r'))
+        ctx.pc.append(z3.And(a == k * q + r, r >= 0, r < k))
+        ctx.solver.add(ctx.pc[-1])
+        hit = cache[key] = (q, r, a)      # keep `a` alive so that its id is not reused
+    return hit[0], hit[1]
+
+
+def _const_int(b):
+    if isinstance(b, int) and not isinstance(b, bool):
+        return b
+    if z3.is_int_value(b):
+        return b.as_long()
+    return None
+
+
 def pydiv(a, b):
     """Python floor division on z3 Ints (z3's ``/`` on Int is Euclidean: remainder always >= 0)."""
+    k = _const_int(b)
+    if k is not None and k > 0 and CURRENT_CTX[0] is not None and not z3.is_int_value(z3.simplify(a)):
+        return _divmod_const(a, k)[0]
     return z3.If(b > 0, a / b, (-a) / (-b))
 
 
 def pymod(a, b):
+    k = _const_int(b)
+    if k is not None and k > 0 and CURRENT_CTX[0] is not None and not z3.is_int_value(z3.simplify(a)):
+        return _divmod_const(a, k)[1]
     return a - b * pydiv(a, b)
 
 
